@@ -177,6 +177,18 @@ def all_model_cases(tier):
             out.append((label, tarmk.archive(ents, dialect), ents))
         except ValueError:
             continue
+        # the same entries followed by two more: a reader that miscounts what an entry (its extension records, its payload, its padding) occupies
+        # goes wrong at the NEXT header. Followers without payload (symlink) and with payload (file).
+        fam = label.split("-")[0]
+        if "+followers" in label or (tier == "quick" and fam not in ("name", "target", "hardlink", "size", "sparse", "xattr")):
+            continue
+        if tier == "quick" and fam == "sparse" and "regions" not in label and "mask5" not in label and "mask a" not in label:
+            continue
+        fol = [E(b"~z1", "slink", target=b"~z2"), E(b"~z2", "file", content=content_pattern("fol", 700))]
+        try:
+            out.append((label + "+2", tarmk.archive(ents + fol, dialect), ents + fol))
+        except ValueError:
+            continue
     out += raw_cases(tier)
     return out
 
